@@ -66,6 +66,7 @@ class MarkupMachine(Machine):
     def _convert_transitions(self, root: MarkupConfig) -> None: ...
     def _add_markup_model(self, markup: MarkupConfig) -> None: ...
     def _convert_models(self) -> List[Dict[str, str]]: ...
+    def _convert_model_state(self, state: Any) -> Any: ...
     def _omit_auto_transitions(self, event: Event) -> bool: ...
     def _is_auto_transition(self, event: Event) -> bool: ...
     def _identify_callback(self, name: str) -> Tuple[Optional[str], Optional[str]]: ...
